@@ -91,10 +91,11 @@ def gen(fmts, heavy, nps):
                     # pairwise-ish: full product with alignment for the light tier is large; rotate alignment and history
                     for al_i, (hints, ed, envh) in enumerate(ALIGNS):
                         if not heavy and (al_i + ai + vi + di) % 4 != 0: continue
-                        for hi in range(4):
-                            if not heavy and (hi + vi + al_i) % 2 != 0: continue
+                        for hi in range(5):
+                            if hi < 4 and not heavy and (hi + vi + al_i) % 2 != 0: continue
                             for np in nps:
-                                if np > 1 and (hi + ai) % 3 != 0: continue
+                                if hi == 4 and (np < 2 or not any(d[1] is None for d in dims) or not vars_ or (not heavy and (ai + al_i) % 2)): continue
+                                if hi < 4 and np > 1 and (hi + ai) % 3 != 0: continue
                                 env = {'PNETCDF_HINTS': ';'.join('%s=%s' % kv for kv in envh.items())} if envh else None
                                 p = Prog('S-f%d-d%d-a%d-v%d-al%d-h%d-np%d' % (fmt, di, ai, vi, al_i, hi, np), np, fmt, hints, env)
                                 p.envh = envh
@@ -117,6 +118,23 @@ def gen(fmts, heavy, nps):
                                     if any(d[1] is None for d in dims):
                                         p.do(dict(op='def_var', name='nr', xtype=D.NC_BYTE, dims=[next(i for i, d in enumerate(dims) if d[1] is None)]))
                                     p.do(dict(op='enddef')); p.checkpoint('enddef after redef')
+                                if hi == 4:
+                                    # independent data mode: the last process and the root append different numbers of records, then the mode is left and the file
+                                    # redefined so that the record section has to move: the file must hold every record written
+                                    rvs = [i for i in range(len(p.m.vars)) if p.m.isrec(i)]
+                                    if rvs:
+                                        rv = rvs[0]; sh = p.m.shape(rv); inner = p.m.inner(rv); t = p.m.vars[rv]['xtype']
+                                        p.write_all(nrec=2)
+                                        p.do(dict(op='begin_indep'))
+                                        for rank, rec in ((np - 1, 2), (0, 3)):       # the root ends with the highest count, the others with lower ones
+                                            o = dict(op='put', v=rv, start=[rec] + [0] * (len(sh) - 1), count=[1] + sh[1:], vals=[(j * 3 + rec) % 50 + 40 for j in range(inner)], coll=0, mem='text' if t == D.NC_CHAR else D.XT_MEM[t])
+                                            rcs, st = p.m.apply(o); assert 0 in rcs, (o, rcs)
+                                            p.m = st
+                                            p.rc_lines.append((emit_std(p.case, rank, o, None), 0))
+                                        p.do(dict(op='end_indep')); p.checkpoint('end_indep')
+                                        p.do(dict(op='redef'))
+                                        p.do(dict(op='put_att', v=-1, name='zz_big', xtype=D.NC_INT, vals=list(range(200))))
+                                        p.do(dict(op='enddef')); p.checkpoint('enddef after independent appends')
                                 if hi == 3 and vars_:
                                     n0 = vars_[0][0]
                                     if len(n0) > 1 and not any(v[0] == n0[0] for v in vars_):
